@@ -27,12 +27,14 @@ func main() {
 	only := fs.Int("case", -1, "run only this case index")
 	gov := fs.Bool("gov", false, "include governance token delisting")
 	dir := fs.Bool("directed", false, "boundary-directed stream")
+	many := fs.Bool("many", false, "more than 100 pending batches of one token before the restart")
 	fs.Parse(os.Args[2:])
 
 	w := bufio.NewWriterSize(os.Stdout, 1<<20)
 	defer w.Flush()
 	stats := map[string]int{}
 	directed = *dir
+	manyBatches = *many
 	switch suite {
 	case "hub", "genesis", "det", "blocks":
 		genesisMode = suite == "genesis"
@@ -61,6 +63,14 @@ func main() {
 			} else {
 				fmt.Fprintf(w, "%s\t%s\t%s\n", suite, Str(c), Str(out))
 			}
+		}
+	case "sigprune":
+		for i := 0; i < *n; i++ {
+			if *only >= 0 && i != *only {
+				continue
+			}
+			c, out := runPruneCase(*seed*1000003+uint64(i), *nops, stats)
+			fmt.Fprintf(w, "sigprune\t%s\t%s\n", Str(c), Str(out))
 		}
 	case "evm":
 		for i := 0; i < *n; i++ {
